@@ -142,10 +142,17 @@ def probe_diagonal(op, nprobes, random_type="pm1"):
 
 
 def approximation2endo(op, nsamples):
+    if nsamples < 2:
+        raise ValueError("approximation2endo needs at least 2 samples to "
+                         "estimate a variance")
     sc = StatCalculator()
     for _ in range(nsamples):
         sc.add(op.draw_sample())
     approx = sc.var
+    if not isinstance(approx, MultiField):
+        foo = approx.asnumpy_rw()
+        foo[foo == 0] = 1
+        return makeField(approx.domain, foo)
     dct = approx.to_dict()
     for kk in dct:
         foo = dct[kk].asnumpy_rw()
